@@ -215,6 +215,25 @@ def gen_constops():
     return out
 
 
+def gen_atcombos():
+    """two references to string offsets in one condition: `$x at K1` combined with another `at` on the same string, with `$ at K2` inside a for..of body (over a
+    set that does or does not contain $x), with a non-constant offset; both operand orders: the compiler's per-string fixed-offset bookkeeping sees every pair"""
+    out = []
+    for sid1 in ("a", "b"):
+        for K1 in (0, 2, 4, 22):
+            first = At(sid1, Int(K1))
+            others = [At(sid1, Int(K2)) for K2 in (0, 2, 7)] + [At(sid1, Bin("-", FILESIZE, Int(4)))]
+            for sid2 in ("a", "b"):
+                others += [ForOf("any", [sid2], "($%s)" % sid2, PH("$", at=Int(K2))) for K2 in (0, 2, 7)]
+                others += [ForOf("any", [sid2], "($%s)" % sid2, PH("$", at=Bin("-", FILESIZE, Int(4))))]
+            others += [ForOf("any", ["a", "b", "c"], "them", PH("$", at=Int(K2))) for K2 in (0, 2, 7)]
+            for x in others:
+                for op in ("and", "or"):
+                    out.append(("atcombo:" + op, Bin(op, first, x)))
+                    out.append(("atcombo:" + op, Bin(op, x, first)))
+    return out
+
+
 def gen_of():
     out = []
     sets = [("them", ["a", "b", "c"]), ("($a,$b)", ["a", "b"]), ("($a*)", ["a"]), ("($c,$a*)", ["c", "a"]), ("($*)", ["a", "b", "c"])]
@@ -311,7 +330,7 @@ def gen_compose():
 
 
 THOROUGH = False
-SUBSPACES = [("optables", gen_optables), ("precedence", gen_precedence), ("undefined", gen_undefined), ("stringq", gen_stringq), ("constops", gen_constops), ("of", gen_of),
+SUBSPACES = [("optables", gen_optables), ("precedence", gen_precedence), ("undefined", gen_undefined), ("stringq", gen_stringq), ("constops", gen_constops), ("atcombos", gen_atcombos), ("of", gen_of),
              ("forin", gen_forin), ("compose", gen_compose)]
 SV_EXT = [("s%d" % i, "s", v) for i, v in enumerate([b"", b"a", b"A", b"ab", b"b"])]
 
